@@ -85,6 +85,27 @@ Definition go_validate_instance (s : bytes) : bool :=
 Definition go_validate_app (n : bytes) : bool := rmatch valid_app n.
 Definition go_validate_hook (n : bytes) : bool := rmatch valid_hook n.
 
+(* ValidatePlug, ValidateSlot, ValidateInterface: one expression *)
+Definition go_validate_plug (n : bytes) : bool := rmatch valid_plug_slot_iface n.
+Definition go_validate_slot (n : bytes) : bool := rmatch valid_plug_slot_iface n.
+Definition go_validate_interface (n : bytes) : bool := rmatch valid_plug_slot_iface n.
+(* ValidateAlias, ValidateSnapID *)
+Definition go_validate_alias (n : bytes) : bool := rmatch valid_alias n.
+Definition go_validate_snap_id (n : bytes) : bool := rmatch valid_snap_id n.
+(* ValidateSocket, ValidateIfaceTag: isValidName without a length test *)
+Definition go_validate_socket (n : bytes) : bool := go_is_valid_name n.
+Definition go_validate_iface_tag (n : bytes) : bool := go_is_valid_name n.
+(* ValidateQuotaGroup: empty test, length test, validQuotaGroupName (= almostValidName), the three dash tests *)
+Definition go_validate_quota_group (grp : bytes) : bool :=
+  if is_nil_b grp then false
+  else if (length grp <? go_quota_min_len)%nat || (go_quota_max_len <? length grp)%nat then false
+  else if negb (rmatch almost_valid_name grp) then false
+  else if hd_is 45 grp || last_is 45 grp || contains2 45 45 grp then false
+  else true.
+(* ValidateProvenance *)
+Definition go_validate_provenance (p : bytes) : bool :=
+  if is_nil_b p then false else rmatch valid_provenance p.
+
 (* SplitFullComponentName followed by ComponentRef.Validate *)
 Definition go_validate_component (full : bytes) : bool :=
   match split_all 43 full with
@@ -247,6 +268,9 @@ Definition sc_security_tag_validate (tag inst : bytes) (comp : option bytes) : b
           end then false
   else beq (tag_group1 tag) inst.
 
+(* sc_is_hook_security_tag: regexec with REG_NOSUB on its own expression *)
+Definition sc_is_hook_security_tag (tag : bytes) : bool := rmatch sc_hook_tag_re tag.
+
 (* ------------------------------------------------------------------------------------------ C: snap-update-ns *)
 Fixpoint sun_name_loop (fuel : nat) (p : bytes) (n : nat) (got : bool) : loop_res :=
   match fuel with
@@ -347,6 +371,13 @@ Definition valid_app_name (s : bytes) : bool := dshape app_char true s.
 Definition valid_hook_name (s : bytes) : bool :=
   match s with c :: r => c_lower c && dshape name_char false r | [] => false end.
 
+Definition alias_char (c : N) : bool := app_char c || (c =? 45) || (c =? 46) || (c =? 95).
+Definition valid_alias_name (s : bytes) : bool :=
+  match s with c :: r => app_char c && forallb alias_char r | [] => false end.
+Definition valid_snap_id_name (s : bytes) : bool := (length s =? 32)%nat && forallb app_char s.
+(* sockets and interface tags: the snap-name shape without the length window *)
+Definition valid_dashed_name (s : bytes) : bool := dshape name_char true s && existsb c_lower s.
+
 (* ------------------------------------------------------------------------------------------ correspondence *)
 Definition opt_beq (a b : option bytes) : bool :=
   match a, b with Some x, Some y => beq x y | None, None => true | _, _ => false end.
@@ -369,7 +400,15 @@ Inductive case :=
        (tag : bytes) (sc : bool)
 (* EVERY string of length n over the alphabet, in the order of sweep_enum: the nine verdicts of CName packed into one
    number per string (bit 0 = go_snap ... bit 8 = sun_inst) *)
-| CSweep (alphabet : bytes) (n : nat) (chunks : list (list N)).   (* the packed words, in chunks (concat = all of them) *)
+| CSweep (alphabet : bytes) (n : nat) (chunks : list (list N))   (* the packed words, in chunks (concat = all of them) *)
+
+(* one string through the daemon's other validators: app hook plug slot interface alias snap-id socket iface-tag
+   quota-group provenance (in this order) *)
+| CMore (s : bytes) (verdicts : list bool)
+(* as CSweep for the eleven verdicts of CMore (bit 0 = app ... bit 10 = provenance) *)
+| CSweepMore (alphabet : bytes) (n : nat) (chunks : list (list N))
+(* a tag: what ParseSecurityTag says (Some true = hook, Some false = app, None = rejected) and sc_is_hook_security_tag *)
+| CIsHook (tag : bytes) (go_kind : option bool) (sc_is_hook : bool).
 
 (* all strings of length n over the alphabet, prefix-major (the order in which the driver enumerates them) *)
 Fixpoint sweep_enum (alphabet : bytes) (n : nat) : list bytes :=
@@ -385,6 +424,22 @@ Definition model_word (s : bytes) : N :=
   pack [go_validate_snap s; go_validate_instance s; go_validate_component s; sc_snap_name_validate s;
         sc_instance_name_validate s; sc_instance_key_validate s; sc_snap_component_validate s;
         sun_validate_snap_name s; sun_validate_instance_name s].
+
+Definition more_verdicts (s : bytes) : list bool :=
+  [go_validate_app s; go_validate_hook s; go_validate_plug s; go_validate_slot s; go_validate_interface s;
+   go_validate_alias s; go_validate_snap_id s; go_validate_socket s; go_validate_iface_tag s;
+   go_validate_quota_group s; go_validate_provenance s].
+Definition model_word_more (s : bytes) : N := pack (more_verdicts s).
+Fixpoint bools_eqb (a b : list bool) : bool :=
+  match a, b with
+  | [], [] => true
+  | x :: a', y :: b' => Bool.eqb x y && bools_eqb a' b'
+  | _, _ => false
+  end.
+Definition go_kind_of (tag : bytes) : option bool :=
+  match go_parse_security_tag tag with Some (_, _, h, _) => Some h | None => None end.
+Definition opt_bool_eqb (a b : option bool) : bool :=
+  match a, b with Some x, Some y => Bool.eqb x y | None, None => true | _, _ => false end.
 
 Fixpoint neqb_list (a b : list N) : bool :=
   match a, b with
@@ -421,11 +476,18 @@ Definition mismatch (c : case) : bool :=
             Bool.eqb (if h then go_validate_hook name else go_validate_app name) gn &&
             Bool.eqb (sc_security_tag_validate tag inst comp) sc)
   | CSweep al n chunks => negb (neqb_list (map model_word (sweep_enum al n)) (concat chunks))
+  | CMore s vs => negb (bools_eqb (more_verdicts s) vs)
+  | CSweepMore al n chunks => negb (neqb_list (map model_word_more (sweep_enum al n)) (concat chunks))
+  | CIsHook tag gk sh => negb (opt_bool_eqb (go_kind_of tag) gk && Bool.eqb (sc_is_hook_security_tag tag) sh)
   end.
 
 (* the property's conclusion on the observed verdicts only *)
 Definition parsed_as (gp : option parsed) (inst : bytes) (comp : option bytes) : bool :=
   match gp with Some (i, c, _, _) => beq i inst && opt_beq c comp | None => false end.
+
+Definition spec_verdicts (s : bytes) : list bool :=
+  [valid_app_name s; valid_hook_name s; valid_hook_name s; valid_hook_name s; valid_hook_name s;
+   valid_alias_name s; valid_snap_id_name s; valid_dashed_name s; valid_dashed_name s; valid_snap_name s; valid_app_name s].
 
 Definition monitor_fail (c : case) : bool :=
   match c with
@@ -436,4 +498,10 @@ Definition monitor_fail (c : case) : bool :=
   | CGen inst comp h name gi gc gn tag sc =>
       gi && gc && gn && (if h then true else match comp with None => true | Some _ => false end) && negb sc
   | CSweep al n chunks => negb (forallb (forallb word_agrees) chunks)
+  (* the daemon's other validators against the hand-written reference recognisers (the specification: they do not depend
+     on the regenerated expressions) *)
+  | CMore s vs => negb (bools_eqb (spec_verdicts s) vs)
+  | CSweepMore al n chunks => negb (neqb_list (map (fun s => pack (spec_verdicts s)) (sweep_enum al n)) (concat chunks))
+  (* sc_is_hook_security_tag never calls an app tag (or a string the daemon rejects... see notes) a hook tag *)
+  | CIsHook tag gk sh => sh && match gk with Some false => true | _ => false end
   end.
